@@ -12,7 +12,7 @@
 
 #define MAXL 10
 typedef struct { int g, k; char v[12]; } ent;
-typedef struct { ent e[MAXL]; int n; int kind; int expressible; } side;
+typedef struct { ent e[MAXL]; int n; int kind; int expressible; int emptyhdr; } side;   /* emptyhdr: a section header without keys in the parsed file (0 none, 1..4) */
 static side S[2];           /* 0 = base, 1 = override */
 static int Lmax = 3;
 static int family;          /* 0 = full alphabet up to Lmax; 1.. = 2-symbol sub-alphabet families */
@@ -56,6 +56,9 @@ static void gen(void)
     if (S[w].expressible) kinds[nk++] = 1;
     if (S[w].n == 0) kinds[nk++] = 3;
     S[w].kind = kinds[mc_choose(nk)];
+    /* deviation for parsed files: a header of a section that has no key in this file ([A] or [AB], before or after the entries);
+     * such a section is known to the object but must not influence the merge */
+    S[w].emptyhdr = S[w].kind == 1 ? mc_choose_dev(5) : 0;
   }
 }
 
@@ -80,10 +83,15 @@ static econf_file *realise(const side *s, const char *fname, sbuf *desc)
   if (s->kind == 1) {
     sbuf f = {0};
     int cur = 0;
+    /* an empty header in front is only written when the first entry is sectioned (a group-less key behind it would join that section) */
+    int eg = (s->emptyhdr == 1 || s->emptyhdr == 3) ? 1 : 2;
+    int used = 0; for (int i = 0; i < s->n; i++) if (s->e[i].g == eg) used = 1;
+    if (s->emptyhdr && !used && s->emptyhdr <= 2 && (s->n == 0 || s->e[0].g != 0)) sb_printf(&f, "[%s]\n", GN[eg]);
     for (int i = 0; i < s->n; i++) {
       if (s->e[i].g != cur) { sb_printf(&f, "[%s]\n", GN[s->e[i].g]); cur = s->e[i].g; }
       sb_printf(&f, "%s=%s\n", KN[s->e[i].k], s->e[i].v);
     }
+    if (s->emptyhdr >= 3 && !used) sb_printf(&f, "[%s]\n", GN[eg]);
     char path[512]; snprintf(path, sizeof path, "%s/%s", mc_work, fname);
     mc_write_file(path, f.s ? f.s : "", f.len);
     sb_puts(desc, "parse(\""); sb_put_esc(desc, f.s ? f.s : "", f.len); sb_puts(desc, "\")");
